@@ -91,6 +91,9 @@ func FuzzLists(f *testing.F) {
 	for _, fx := range Fixtures() {
 		if fx.Kind == "crl" {
 			f.Add(pemCRL(fx.DER))
+			for m := 2; m < len(pemModes); m++ {
+				f.Add(pemArmour(fx.DER, m, len(fx.DER)*m))
+			}
 		}
 	}
 	f.Fuzz(func(t *testing.T, data []byte) {
